@@ -217,6 +217,36 @@ pub fn run() -> i32 {
             }
         } } } }
     }, |a| { tot.evals += a.evals; tot.nt += a.nt; tot.viols.extend(a.viols); tot.outs.extend(a.outs); });
+    // ---- box 2: the same modifiers on an element of the environment: before the target (matched on the mirrored word) and after it, as a
+    // context and as an exception. `k > [+voice] / E:[m] _` on /t3.sn<a-run>.k/ and `t > [+voice] / _ E:[m]` on /t3.<a-run>sn.k/
+    let mut ejobs: Vec<(Kind, Md, u8)> = vec![];
+    for k in KINDS { for m in all_mods(k != Kind::Syll) { if contradictory(&m) { continue; } for side in 0..4u8 { ejobs.push((k, m, side)); } } }
+    let mut te = acc();
+    par_fold(ejobs.len(), 8, acc, |i, a| {
+        let (k, m, side) = ejobs[i];
+        let before = side % 2 == 0; let exception = side >= 2;
+        let el = elem_text(k, Some(&m));
+        let text = format!("{} > [+voice] {} {}", if before { "k" } else { "t" }, if exception { "|" } else { "/" }, if before { format!("{} _", el) } else { format!("_ {}", el) });
+        let Out::Ok(Ok(compiled)) = guarded(5_000_000, || av::compile(&[group(&[&text])])) else { a.viols.push(Viol { key: format!("compile|{}", text), desc: format!("`{}` does not compile", text), case: json!({"rule": text}) }); return; };
+        for len in 1..=3u8 { for stress in 0..3u8 { for tone in TONES {
+            let st = St { len, stress, tone };
+            let w = build(&st, if before { 2 } else { 0 });
+            let hit = matches(&m, &st);
+            let fires = hit != exception;
+            let mut e = w.clone();
+            if fires { let (sy, sg) = if before { (2, 0) } else { (0, 0) }; e[sy].segs[sg] = model::set_feat(e[sy].segs[sg], 11, true); }
+            a.evals += 1;
+            match run_one(&compiled, &w, &text) {
+                Out::Ok(Ok(g)) if g == e => { if fires { a.nt += 1; } a.outs.insert(hash64(&g)); }
+                Out::Ok(Ok(g)) => a.viols.push(Viol { key: format!("env|{:?}|{}|{}|len{},stress{},tone{}", k, ["ctx-before", "ctx-after", "exc-before", "exc-after"][side as usize], md_text(&m).join(","), len, stress, tone), desc: format!("`{}` on /{}/: the element {} the state (length {}, stress {}, tone {}), expected /{}/, got /{}/", text, show_cw(&w), if hit { "matches" } else { "does not match" }, len, stress, tone, show_cw(&e), show_cw(&g)), case: json!({"env": true, "rule": text, "word": cw_json(&w), "expected": cw_json(&e)}) }),
+                Out::Ok(Err(er)) => a.viols.push(Viol { key: format!("env|{:?}|{}|{}|error", k, side, md_text(&m).join(",")), desc: format!("`{}` on /{}/: error {}", text, show_cw(&w), er), case: json!({"env": true, "rule": text, "word": cw_json(&w), "expected": cw_json(&e)}) }),
+                o => a.viols.push(Viol { key: format!("env|crash|{}", text), desc: o.crash_desc().unwrap(), case: json!({"env": true, "rule": text, "word": cw_json(&w), "expected": cw_json(&e)}) }),
+            }
+        } } }
+    }, |a| { te.evals += a.evals; te.nt += a.nt; te.viols.extend(a.viols); te.outs.extend(a.outs); });
+    r.boxes.push(json!({"box": "modifiers on an environment element (before / after the target, context / exception)", "rules": ejobs.len(), "cases": te.evals, "fired": te.nt}));
+    r.guard(te.nt * 10 > te.evals, "environment box: at least 10% of the cases fire");
+    tot.evals += te.evals; tot.nt += te.nt; tot.viols.extend(te.viols); tot.outs.extend(te.outs);
     r.evaluations = tot.evals; r.transitions = tot.evals; r.validated = tot.evals; r.nontrivial = tot.nt; r.states = tot.outs;
     r.boxes.push(json!({"box": "kinds x roles x modifiers x states x positions", "rules": jobs.len(), "cases": tot.evals, "model_predicts_change": tot.nt}));
     r.guard(tot.nt * 20 > tot.evals, "at least 5% of cases change the word");
@@ -227,6 +257,12 @@ pub fn run() -> i32 {
 }
 
 pub fn replay(case: &Value) -> Result<String, String> {
+    if case["env"].as_bool() == Some(true) {
+        let text = case["rule"].as_str().ok_or("rule")?;
+        let w = cw_from_json(&case["word"]).ok_or("word")?; let e = cw_from_json(&case["expected"]).ok_or("expected")?;
+        let Out::Ok(Ok(c)) = guarded(5_000_000, || av::compile(&[group(&[text])])) else { return Err("does not compile".into()) };
+        return match run_one(&c, &w, text) { Out::Ok(Ok(g)) if g == e => Ok("as the table predicts".into()), Out::Ok(Ok(g)) => Err(format!("expected /{}/, got /{}/", show_cw(&e), show_cw(&g))), Out::Ok(Err(x)) => Err(x), o => Err(o.crash_desc().unwrap()) };
+    }
     let text = case["rule"].as_str().ok_or("no rule")?;
     let k = match case["kind"].as_str() { Some("Ipa") => Kind::Ipa, Some("Group") => Kind::Group, Some("Matrix") => Kind::Matrix, Some("Syll") => Kind::Syll, _ => return Err("compile-time case".into()) };
     let role = case["input_role"].as_bool().unwrap();
